@@ -445,8 +445,21 @@ def r3_max_prio(F, res):
                                   "documented: the maximum over the productions it is used in" % mir.short(n),
                                   "%s:%s" % (g.file, t["line"]))
     if not found:
-        # maybe written inline with a comparison
-        res.anchor_lost(rid, "no max/min call found in the and_modify closure of group_per_next_symbol", f.loc())
+        # no combination at all? `entry(t).or_insert(prio)` on its own keeps the FIRST production's priority
+        plain = None
+        for p in Sim(f, F).run():
+            for e in p.events:
+                if e[0] == "call" and e[1].endswith("::or_insert") and mir.has_field(e[2][0], "max_prior_for_term") is not None:
+                    plain = not mir.has_call(e[2][0], "and_modify")
+        cmp_inline = any(mir.contains(c, lambda x: isinstance(x, tuple) and x[0] == "bin" and x[1] in ("Gt", "Lt", "Ge", "Le"))
+                         for p in Sim(f, F).run() for c, _ in p.cond)
+        if plain and not cmp_inline:
+            res.violation(rid, "and_modify", "max_prior_for_term.entry(t).or_insert(prio) without combining with the entry that is "
+                          "already there: the shift priority of a terminal is the priority of the FIRST production that shifts it, "
+                          "documented: the maximum", f.loc())
+        else:
+            # maybe written inline with a comparison
+            res.anchor_lost(rid, "no max/min call found in the and_modify closure of group_per_next_symbol", f.loc())
     # the entry API must be keyed by the terminal and seeded with the production's priority
     for p in Sim(f, F).run():
         for e in p.events:
